@@ -17,10 +17,25 @@ package statsd
 // PctOK: every configured percentile is within [-100, 100] (start-up validation).
 //@ pred PctOK(a *MetricAggregator) := forall p float64 :: p in a.percentThresholds ==> -100.0 <= p && p <= 100.0
 
+//@ func (*MetricAggregator).Flush
+//@   floats real
+//@   requires a != nil && a.statser != nil && wfMM(a.metricMap) && PctOK(a)
+//@   modifies everything
+
+// The counters closure of Flush, called by Counters.Each for every (key, tagsKey) of the map.
+//@ func (*MetricAggregator).Flush$1
+//@   floats real
+//@   requires a != nil && a.metricMap != nil && a.metricMap.Counters[key] != nil
+//@   modifies a.metricMap.Counters[key][*]
+
 // The timers closure of Flush, called by Timers.Each for every (key, tagsKey) of the map.
 //@ func (*MetricAggregator).Flush$2
 //@   floats real
 //@   requires a != nil && a.metricMap != nil && a.metricMap.Timers[key] != nil && PctOK(a)
 //@   loop 1 invariant 1 <= i
 //@   loop 3 invariant 0 <= i
-//@   modifies everything
+//@   modifies a.metricMap.Timers[key][*], timer.Values[*], allElems(gostatsd.Percentiles)
+
+//@ func mapToThresholds
+//@   ensures  base(result) == 0 || fresh(base(result))
+//@   loop 1 invariant base(lb) == 0 || fresh(base(lb))
